@@ -513,7 +513,9 @@ class Transform(object):
 
     def _abel_transform_image_full_linbasex(self, **transform_options):
         self.transform, self.radial, self.Beta, self.projection = \
-            linbasex.linbasex_transform_full(self.IM, **transform_options)
+            linbasex.linbasex_transform_full(self.IM,
+                                             direction=self.direction,
+                                             **transform_options)
 
     def _abel_transform_image_full_rbasex(self, **transform_options):
         self.transform, self.distr = \
